@@ -13,11 +13,14 @@ def snapshot(qc):
             copy.deepcopy(qc.metadata), [r.name for r in qc.qregs], [r.name for r in qc.cregs], len(qc.data))
 
 
-def judge(n, conn, prog):
+def judge(n, conn, prog, qc=None):
+    """prog: the gate list the model runs. qc: the circuit object handed to the library (default: built from prog
+    gate by gate; the chained family passes an object the library itself returned and the caller then extended)."""
     from .. import impl
-    qc = impl.ops_to_circuit(prog, n)
-    qc.name = "input-circuit"
-    qc.metadata = {"tag": [1, 2, 3]}
+    if qc is None:
+        qc = impl.ops_to_circuit(prog, n)
+        qc.name = "input-circuit"
+        qc.metadata = {"tag": [1, 2, 3]}
     before = snapshot(qc)
     clone = qc.copy()
     out = impl.stabilizer_circuits.compress_preparation_circuit(qc, conn)
@@ -48,6 +51,71 @@ def judge(n, conn, prog):
         msgs.append("compressed circuit has %d two-qubit gates, the class (%d) cost is %d (input had %d gates, %d two-qubit)"
                     % (cost, cid, info.cost, len(prog), M.two_qubit_cost(prog)))
     return msgs
+
+
+def judge_chain(n, conn1, prog, ext, conn2, how):
+    """Compress `prog` for conn1; the caller then extends the RETURNED circuit object by `ext`
+    (how = "inplace": gate methods on the object itself; "compose": result.compose(extension circuit);
+    "copy": the same on result.copy()); that circuit is compressed for conn2 and judged like any other input:
+    it is a Clifford circuit over the documented gate set whatever object it lives in."""
+    from .. import impl
+    first = impl.stabilizer_circuits.compress_preparation_circuit(impl.ops_to_circuit(prog, n), conn1)
+    mid_ops = impl.circuit_ops(first, keep_measure=True)
+    bad = M.check_alphabet(mid_ops, n, allowed=DELIVERED_ALPHABET)
+    if bad:
+        return ["first compression: " + bad]
+    if how == "compose":
+        second_in = first.compose(impl.ops_to_circuit(ext, n))
+    else:
+        second_in = first if how == "inplace" else first.copy()
+        for g in ext:
+            if g[0] in ("i", "id"):
+                second_in.id(g[1])
+            else:
+                getattr(second_in, g[0])(*g[1:])
+    full = [tuple(g) for g in impl.circuit_ops(second_in, keep_measure=True)]
+    if full != [tuple(g) for g in mid_ops] + [tuple(g) for g in ext]:
+        raise core.HarnessError("the extended circuit does not read back as result + extension")
+    msgs = judge(n, conn2, full, qc=second_in)
+    # the model's state of (prog + ext) is the independent expectation for the state of the second result's input
+    if M.canon(M.run(full, n), n) != M.canon(M.run(list(prog) + list(ext), n), n):
+        msgs.append("first compression does not prepare the input's state")
+    return ["after compress(%s) and %s extension by [%s]: %s" % (conn1, how, programs.show([list(g) for g in ext]), m) for m in msgs]
+
+
+def _work_chain(payload):
+    fails = []
+    cnt = 0
+    hist = core.History()
+    for n, conn1, prog, ext, conn2, how in payload:
+        prog = [tuple(g) for g in prog]
+        ext = [tuple(g) for g in ext]
+        cnt += 1
+        try:
+            msgs = judge_chain(n, conn1, prog, ext, conn2, how)
+        except core.HarnessError:
+            raise
+        except Exception as ex:      # noqa: BLE001
+            msgs = ["raised %s: %s" % (type(ex).__name__, str(ex)[:160])]
+        case = {"kind": "chain", "n": n, "conn": conn1, "program": [list(g) for g in prog], "ext": [list(g) for g in ext],
+                "conn2": conn2, "how": how}
+        if msgs:
+            cj = hist.attach(case)
+            for m in msgs[:2]:
+                fails.append((m, cj))
+        hist.add(case)
+    return cnt, fails
+
+
+def run_chain(ctx, label, items):
+    ctx.phase("%s (%d chains)" % (label, len(items)))
+    nch = max(1, min(len(items), core.NPROC * 2))
+    for cnt, fails in core.pmap(_work_chain, [items[k::nch] for k in range(nch)]):
+        ctx.count("evaluations", cnt)
+        ctx.count("chained_compressions", cnt)
+        for m, case in sorted(fails, key=lambda t: (len(t[1]["program"]) + len(t[1]["ext"]), core.canon_json(t[1]))):
+            ctx.violation(case, "chain: n=%d %s->%s [%s]: %s" % (case["n"], case["conn"], case["conn2"], programs.show(case["program"])[:160], m))
+    ctx.bounds.setdefault("explored", {})[label] = len(items)
 
 
 def _work(payload):
@@ -182,6 +250,34 @@ def check(ctx):
             items.append((n, conn, programs.decorated_trace(g, i, (k * 11 + 3) % (1 << n))))
     ctx.count("states", len(items))
     run_items(ctx, "all 20 configurations x every class: decorated trace of the (locally rotated) table graph state", items)
+    # (e) chained use: the circuit returned by compress is extended by the caller and compressed again
+    #     ("start from non-initial states": the second input is an object the library produced)
+    items = []
+    hows = ("inplace", "compose", "copy")
+    g3 = B.sg(3)
+    sig3 = programs.alphabet(3, ordered_symmetric=False)
+    c3 = M.configs_for(3)
+    k = 0
+    for i in range(0, g3.N, (9 if quick else 1)):
+        base = programs.decorated_trace(g3, i, i % 8)
+        for g in sig3:                                     # every single-gate extension, same and other connectivity
+            items.append((3, c3[k % 2], base, [g], c3[(k // 2) % 2], hows[k % 3]))
+            k += 1
+        items.append((3, c3[i % 2], base, M.inverse_gates(base), c3[i % 2], hows[i % 3]))          # back to |000>: cost 0
+        items.append((3, c3[i % 2], base, [], c3[i % 2], hows[i % 3]))                               # compress(compress(c))
+    for n in (2, 4, 5, 6):
+        g = B.sg(n)
+        confs = M.configs_for(n)
+        sig = programs.alphabet(n, ordered_symmetric=False)
+        two = [x for x in sig if len(x) == 3]
+        for j, i in enumerate(range(0, g.N, max(1, g.N // ((12 if quick else 60) if n > 2 else g.N)))):
+            base = programs.decorated_trace(g, i, (j * 7 + 1) % (1 << n))
+            for c in (confs if n <= 4 or not quick else [confs[j % len(confs)]]):
+                e1 = [two[(j * 3 + t) % len(two)] for t in range(3)]
+                items.append((n, c, base, e1, c, hows[j % 3]))
+                items.append((n, c, base, M.inverse_gates(base), c, hows[(j + 1) % 3]))
+                items.append((n, c, base, [sig[(j * 5) % len(sig)]], confs[(j + 1) % len(confs)], hows[(j + 2) % 3]))
+    run_chain(ctx, "chained: compress, extend the returned circuit (in place / compose / copy), compress again", items)
     if not quick:
         g5 = B.sg(5)
         items = [(5, M.configs_for(5)[i % 6], programs.decorated_trace(g5, i, i % 32)) for i in range(0, g5.N, 4)]
@@ -203,4 +299,13 @@ def replay(body):
     return "; ".join(msgs) if msgs else None
 
 
-REPLAY = {"program": replay}
+def replay_chain(body):
+    try:
+        msgs = judge_chain(body["n"], body["conn"], [tuple(g) for g in body["program"]], [tuple(g) for g in body["ext"]],
+                           body["conn2"], body["how"])
+    except Exception as ex:      # noqa: BLE001
+        msgs = ["raised %s: %s" % (type(ex).__name__, ex)]
+    return "; ".join(msgs) if msgs else None
+
+
+REPLAY = {"program": replay, "chain": replay_chain}
